@@ -107,8 +107,8 @@ pub fn mk_tthrowable(class: &str, message: Option<&str>) -> TThrowable {
     TThrowable { class: class.to_string(), message: message.map(|s| s.to_string()) }
 }
 
-pub fn mk_tframe(class: &str, method: &str, file: Option<&str>, line: usize) -> TFrame {
-    TFrame { class: class.to_string(), method: method.to_string(), file: file.map(|s| s.to_string()), line: line as u64 }
+pub fn mk_tframe(class: &str, method: &str, file: Option<&str>, line: usize, params: Option<&str>) -> TFrame {
+    TFrame { class: class.to_string(), method: method.to_string(), file: file.map(|s| s.to_string()), line: line as u64, params: params.map(|s| s.to_string()) }
 }
 
 /// Generates the adapter module for one linked library version.
@@ -426,7 +426,7 @@ macro_rules! adapter {
                 let frames: Vec<pg::StackFrame<'a>> = t
                     .frames
                     .iter()
-                    .map(|f| mk_frame(&f.class, &f.method, f.line as usize, f.file.as_deref(), None))
+                    .map(|f| mk_frame(&f.class, &f.method, f.line as usize, f.file.as_deref(), f.params.as_deref()))
                     .collect();
                 match &t.cause {
                     Some(c) => pg::StackTrace::with_cause(exc, frames, build_typed(c)),
@@ -437,7 +437,7 @@ macro_rules! adapter {
             pub fn conv_typed(t: &pg::StackTrace<'_>) -> TTrace {
                 TTrace {
                     exception: t.exception().map(|e| mk_tthrowable(e.class(), e.message())),
-                    frames: t.frames().iter().map(|f| mk_tframe(f.class(), f.method(), f.file(), f.line())).collect(),
+                    frames: t.frames().iter().map(|f| mk_tframe(f.class(), f.method(), f.file(), f.line(), f.parameters())).collect(),
                     cause: t.cause().map(|c| Box::new(conv_typed(c))),
                 }
             }
@@ -452,7 +452,7 @@ macro_rules! adapter {
                 mk_frame(&f.class, &f.method, f.line as usize, f.file.as_deref(), None).to_string()
             }
             pub fn frame_parse(s: &[u8]) -> Option<pgvcore::traces::TFrame> {
-                pg::StackFrame::try_parse(s).map(|f| mk_tframe(f.class(), f.method(), f.file(), f.line()))
+                pg::StackFrame::try_parse(s).map(|f| mk_tframe(f.class(), f.method(), f.file(), f.line(), f.parameters()))
             }
             pub fn throwable_print(t: &pgvcore::traces::TThrowable) -> String {
                 match &t.message {
